@@ -159,7 +159,21 @@ impl Scenario for Rules {
                     p[i] ^= bit;
                     Some(format!("{}/{}", hex(&p), hex(&mask)))
                 }
-                8 => Some((*rng.pick(&["zz", "abc", "aabb/zz", "/ff", "aa/"])).to_string()),
+                8 => Some(match rng.below(4) {
+                    // malformed, yet made of the random's own digits: an odd number of them,
+                    // upper case, a stray space, a non-hex digit at the end
+                    0 => {
+                        let h = hex(&random[..k]);
+                        h[..h.len() - 1].to_string()
+                    }
+                    1 => format!("{}g", hex(&random[..k])),
+                    2 => {
+                        let h = hex(&random[..k]);
+                        let mask = "ff".repeat(k);
+                        format!("{}/{}", &h[..h.len() - 1], &mask[..mask.len() - 1])
+                    }
+                    _ => (*rng.pick(&["zz", "abc", "aabb/zz", "/ff", "aa/"])).to_string(),
+                }),
                 9 => Some(hex(&random)),
                 10 => Some(format!("{}/{}", hex(&random[..k]), hex(&vec![0xff; k + 1]))),
                 _ => Some(String::new()),
